@@ -751,7 +751,7 @@ func (c *Ctx) ownRun() map[string]*simpleVerdict {
 
 func init() {
 	register(&Rule{ID: "OWN.model", Floor: 4,
-		Doc: "variants evaluated abstractly through NewVariant / VariantFrom* / SetAs* / Assign / Clone / Equals / SetByIndex against the value model: 18 host values of every supported Go type (a nil and an empty list of variants included) give the matching type and come back through the accessor, through NewVariant and VariantFromObject, also when set on a variant that already holds any of the others; assigning a variant to itself changes nothing; lists given through six entry points are copied in and grow with nulls; a list without elements (nil, empty, empty with spare capacity) through five entry points is an array of length 0 that equals VariantFromArray of the same list and grows on its own; clones of 35 kinds of variants equal their original (NaN excepted) and are independent; equality over all ordered pairs is symmetric, true exactly on equal values and never panics (lists with empty slots in every position on either side, nested lists, lists of different lengths, maps, slices, nil included)",
+		Doc: "variants evaluated abstractly through NewVariant / VariantFrom* / SetAs* / Assign / Clone / Equals / SetByIndex against the value model: 18 host values of every supported Go type (a nil and an empty list of variants included) give the matching type and come back through the accessor, through NewVariant and VariantFromObject, also when set on a variant that already holds any of the others; assigning a variant to itself changes nothing; lists given through six entry points are copied in and grow with nulls; a list without elements (nil, empty, empty with spare capacity) through five entry points is an array of length 0 that equals VariantFromArray of the same list and grows on its own; clones of 35 kinds of variants equal their original (NaN excepted) and are independent; histories on copies: nine routes to a second holder of a value (Clone, Assign, NewVariant / VariantFromObject / SetAsObject of the variant, a second variant built from or set to the same list, a clone of a clone) x fourteen mutators of the copy (Clear, SetAs*, Assign, SetLength, SetByIndex inside and past the end, two in a row) leave the original and the caller's list as they were, nested lists included; equality over all ordered pairs is symmetric, true exactly on equal values and never panics (lists with empty slots in every position on either side, nested lists, lists of different lengths, maps, slices, nil included)",
 		Run: func(c *Ctx) []*Obligation {
 			o := newObl("OWN.model")
 			res := c.ownRun()
